@@ -5,7 +5,7 @@ from typing import Dict, List, Optional, Set, Tuple
 
 from ..model import Repo, ClassInfo, FunctionInfo, AnalysisError, walk_no_nested, src, is_self_attr, call_name, dotted, parent, \
     ancestors, enclosing_stmt, const_str
-from ..core import Ob, Rule, Mutant, mutate_module, find_def, replace_node, remove_stmt, inconclusive
+from ..core import Ob, Rule, Mutant, mutate_module, find_def, replace_node, remove_stmt, inconclusive, text_mutant
 from ..dataflow import Defs
 from ..cfg import cfg_of, CFG, Node
 
@@ -163,71 +163,100 @@ def mut_constants_guard(repo: Repo) -> List[Mutant]:
 def rule_typer(repo: Repo) -> List[Ob]:
     obs = []
     rp = "type_inference/finite_fixed_point_typer.py"
-    # (a) interval supports are refused before being treated as values
-    f = repo.function(rp, "FiniteFixedPointTyper._get_values_for_assign")
-    c = cfg_of(f.node)
-    calls = _calls(f.node, "_get_values_for_expr")
-    if not calls:
-        raise AnalysisError("_get_values_for_expr call not found")
-    for call in calls:
-        sink = node_for(c, call)
+    def clause_a():
+        # (a) interval supports are refused before being treated as values
+        f = repo.function(rp, "FiniteFixedPointTyper._get_values_for_assign")
+        c = cfg_of(f.node)
+        calls = _calls(f.node, "_get_values_for_expr")
+        if not calls:
+            raise AnalysisError("_get_values_for_expr call not found")
+        for call in calls:
+            sink = node_for(c, call)
+            tests = controlling_tests(c, sink)
+            ok = any("tuple" in src(t.ast) and reach is False for t, reach in tests)
+            obs.append(Ob("E-typer", f"{rp}::{f.qualname}::interval-refused", rp, call.lineno, f.qualname, ok,
+                          "an interval (tuple) in a support makes the value set fail before it could be read as a value" if ok else
+                          "support elements reach _get_values_for_expr without the interval (tuple) test: a continuous range would be typed as one value"))
+    def clause_b():
+        # (b) only non-failed, all-numeric sets become types
+        f = repo.function(rp, "FiniteFixedPointTyper._extract_types")
+        from ..shape import expanded as _exp
+        fx = _exp(repo, f)
+        c = cfg_of(fx)
+        ctor = [x for x in walk_no_nested(fx) if isinstance(x, ast.Call) and call_name(x) == "Finite"]
+        if not ctor:
+            raise AnalysisError("_extract_types: Finite(...) not found")
+        sink = node_for(c, ctor[0])
+        tests = [(t.ast, r) for t, r in controlling_tests(c, sink)] + [(e, True) for e in comprehension_conditions(ctor[0])]
+        # conjunctions count per conjunct
+        flat = []
+        for e, r in tests:
+            if isinstance(e, ast.BoolOp) and isinstance(e.op, ast.And) and r is True:
+                flat += [(v, True) for v in e.values]
+            else:
+                flat.append((e, r))
+        txt = " ".join(src(e) + ("" if r else " [negated]") for e, r in flat)
+        ok_failed = any("has_failed" in src(e) and ((isinstance(e, ast.UnaryOp) and r is True) or (not isinstance(e, ast.UnaryOp) and r is False)) for e, r in flat)
+        ok_num = any(("is_number" in src(e) or "is_Number" in src(e)) and "all(" in src(e) and r is True for e, r in flat)
+        obs.append(Ob("E-typer", f"{rp}::{f.qualname}::not-failed", rp, ctor[0].lineno, f.qualname, ok_failed,
+                      "failed variables never receive a type" if ok_failed else f"Finite(...) is built under [{txt}] without excluding failed variables"))
+        obs.append(Ob("E-typer", f"{rp}::{f.qualname}::all-numeric", rp, ctor[0].lineno, f.qualname, ok_num,
+                      "only value sets whose members are all numbers become types" if ok_num else f"Finite(...) is built under [{txt}] without the all-numeric test"))
+    def clause_cd():
+        # (c) every initial assignment contributes to the start state (no first-assignment-wins)
+        f = repo.function(rp, "FiniteFixedPointTyper._initialize_state")
+        from ..shape import expanded
+        fnode = expanded(repo, f, keep=("_get_values_for_assign",))       # the two loops may have been moved into helpers of the typer
+        c = cfg_of(fnode)
+        loops = [n for n in walk_no_nested(fnode) if isinstance(n, ast.For) and "initial" in src(n.iter)]
+        if not loops:
+            raise AnalysisError("_initialize_state: loop over program.initial not found")
+        loop = loops[0]
+        upd = [x for x in ast.walk(loop) if isinstance(x, ast.Call) and call_name(x) == "_get_values_for_assign"]
+        if not upd:
+            raise AnalysisError("_initialize_state: initial assignments are not evaluated")
+        sink = node_for(c, upd[0])
         tests = controlling_tests(c, sink)
-        ok = any("tuple" in src(t.ast) and reach is False for t, reach in tests)
-        obs.append(Ob("E-typer", f"{rp}::{f.qualname}::interval-refused", rp, call.lineno, f.qualname, ok,
-                      "an interval (tuple) in a support makes the value set fail before it could be read as a value" if ok else
-                      "support elements reach _get_values_for_expr without the interval (tuple) test: a continuous range would be typed as one value"))
-    # (b) only non-failed, all-numeric sets become types
-    f = repo.function(rp, "FiniteFixedPointTyper._extract_types")
-    c = cfg_of(f.node)
-    ctor = [x for x in walk_no_nested(f.node) if isinstance(x, ast.Call) and call_name(x) == "Finite"]
-    if not ctor:
-        raise AnalysisError("_extract_types: Finite(...) not found")
-    sink = node_for(c, ctor[0])
-    tests = [(t.ast, r) for t, r in controlling_tests(c, sink)] + [(e, True) for e in comprehension_conditions(ctor[0])]
-    # conjunctions count per conjunct
-    flat = []
-    for e, r in tests:
-        if isinstance(e, ast.BoolOp) and isinstance(e.op, ast.And) and r is True:
-            flat += [(v, True) for v in e.values]
+        first_wins = [t for t, r in tests if re.search(r"not in self\.state|in self\.state", src(t.ast)) and not re.search(r"is_locked|typedefs", src(t.ast))]
+        ok = not first_wins
+        obs.append(Ob("E-typer", f"{rp}::{f.qualname}::sequential-init", rp, loop.lineno, f.qualname, ok,
+                      "every assignment of the initial block updates the start state (only user-typed variables are skipped)" if ok else
+                      f"initial assignments are evaluated only under `{src(first_wins[0].ast)}`: the first assignment of a variable wins, "
+                      "`x = 0; x = x + 1` starts the fixed point from {0} although x is 1 when the loop begins"))
+        # (d) a variable without initial value starts from <name>0 if it is read -- in a right side OR a condition -- before its assignment
+        rs = [n for n in walk_no_nested(fnode) if isinstance(n, ast.AugAssign) and isinstance(n.op, ast.BitOr) and isinstance(n.value, ast.Call) and call_name(n.value) == "get_free_symbols"]
+        key = f"{rp}::{f.qualname}::reads-before-assignment"
+        # the collection must ACCUMULATE over the statements of the body: the symbols read by every statement up to the assignment count
+        body_loops = [n for n in walk_no_nested(fnode) if isinstance(n, ast.For) and "loop_body" in src(n.iter)]
+        for bl in body_loops:
+            members = {x.comparators[0].id for x in ast.walk(bl) if isinstance(x, ast.Compare) and len(x.ops) == 1 and isinstance(x.ops[0], (ast.In, ast.NotIn))
+                       and isinstance(x.comparators[0], ast.Name) and "variable" in src(x.left)}
+            for coll in sorted(members):
+                plain = [st for st in ast.walk(bl) if isinstance(st, ast.Assign) and len(st.targets) == 1 and isinstance(st.targets[0], ast.Name) and st.targets[0].id == coll
+                         and not any(isinstance(y, ast.Name) and y.id == coll for y in ast.walk(st.value))
+                         and any(isinstance(y, ast.Call) and call_name(y) in ("get_free_symbols", "free_symbols") or (isinstance(y, ast.Attribute) and y.attr == "free_symbols") for y in ast.walk(st.value))]
+                keya = f"{rp}::{f.qualname}::reads-accumulate"
+                if plain:
+                    obs.append(Ob("E-typer", keya, rp, plain[0].lineno, f.qualname, False,
+                                  f"`{src(plain[0])[:70]}` replaces the collected symbols in every iteration: a variable that an EARLIER statement of the body reads before its "
+                                  "assignment starts with the empty value set instead of <name>0, and is typed finite without its initial value"))
+                elif any(isinstance(st, ast.AugAssign) and isinstance(st.target, ast.Name) and st.target.id == coll for st in ast.walk(bl)) or \
+                        any(isinstance(c0, ast.Call) and call_name(c0) in ("update", "add") and isinstance(c0.func, ast.Attribute) and isinstance(c0.func.value, ast.Name) and c0.func.value.id == coll for c0 in ast.walk(bl)):
+                    obs.append(Ob("E-typer", keya, rp, bl.lineno, f.qualname, True, "the symbols read so far are accumulated over the statements of the loop body"))
+        if not rs:
+            obs.append(inconclusive("E-typer", key, rp, f.node.lineno, f.qualname, "collection of the symbols read before assignment not recognised"))
         else:
-            flat.append((e, r))
-    txt = " ".join(src(e) + ("" if r else " [negated]") for e, r in flat)
-    ok_failed = any("has_failed" in src(e) and ((isinstance(e, ast.UnaryOp) and r is True) or (not isinstance(e, ast.UnaryOp) and r is False)) for e, r in flat)
-    ok_num = any(("is_number" in src(e) or "is_Number" in src(e)) and "all(" in src(e) and r is True for e, r in flat)
-    obs.append(Ob("E-typer", f"{rp}::{f.qualname}::not-failed", rp, ctor[0].lineno, f.qualname, ok_failed,
-                  "failed variables never receive a type" if ok_failed else f"Finite(...) is built under [{txt}] without excluding failed variables"))
-    obs.append(Ob("E-typer", f"{rp}::{f.qualname}::all-numeric", rp, ctor[0].lineno, f.qualname, ok_num,
-                  "only value sets whose members are all numbers become types" if ok_num else f"Finite(...) is built under [{txt}] without the all-numeric test"))
-    # (c) every initial assignment contributes to the start state (no first-assignment-wins)
-    f = repo.function(rp, "FiniteFixedPointTyper._initialize_state")
-    c = cfg_of(f.node)
-    loops = [n for n in walk_no_nested(f.node) if isinstance(n, ast.For) and "initial" in src(n.iter)]
-    if not loops:
-        raise AnalysisError("_initialize_state: loop over program.initial not found")
-    loop = loops[0]
-    upd = [x for x in ast.walk(loop) if isinstance(x, ast.Call) and call_name(x) == "_get_values_for_assign"]
-    if not upd:
-        raise AnalysisError("_initialize_state: initial assignments are not evaluated")
-    sink = node_for(c, upd[0])
-    tests = controlling_tests(c, sink)
-    first_wins = [t for t, r in tests if re.search(r"not in self\.state|in self\.state", src(t.ast)) and not re.search(r"is_locked|typedefs", src(t.ast))]
-    ok = not first_wins
-    obs.append(Ob("E-typer", f"{rp}::{f.qualname}::sequential-init", rp, loop.lineno, f.qualname, ok,
-                  "every assignment of the initial block updates the start state (only user-typed variables are skipped)" if ok else
-                  f"initial assignments are evaluated only under `{src(first_wins[0].ast)}`: the first assignment of a variable wins, "
-                  "`x = 0; x = x + 1` starts the fixed point from {0} although x is 1 when the loop begins"))
-    # (d) a variable without initial value starts from <name>0 if it is read -- in a right side OR a condition -- before its assignment
-    rs = [n for n in walk_no_nested(f.node) if isinstance(n, ast.AugAssign) and isinstance(n.op, ast.BitOr) and isinstance(n.value, ast.Call) and call_name(n.value) == "get_free_symbols"]
-    key = f"{rp}::{f.qualname}::reads-before-assignment"
-    if not rs:
-        obs.append(inconclusive("E-typer", key, rp, f.node.lineno, f.qualname, "collection of the symbols read before assignment not recognised"))
-    else:
-        kw = {k.arg: k.value for k in rs[0].value.keywords}
-        wc = kw.get("with_condition")
-        bad_ = isinstance(wc, ast.Constant) and wc.value is False
-        obs.append(Ob("E-typer", key, rp, rs[0].lineno, f.qualname, not bad_,
-                      "reads in conditions count as reads of the old value" if not bad_ else
-                      "symbols of conditions are excluded: a variable whose old value is only *tested* before its assignment starts with the empty value set instead of <name>0"))
+            kw = {k.arg: k.value for k in rs[0].value.keywords}
+            wc = kw.get("with_condition")
+            bad_ = isinstance(wc, ast.Constant) and wc.value is False
+            obs.append(Ob("E-typer", key, rp, rs[0].lineno, f.qualname, not bad_,
+                          "reads in conditions count as reads of the old value" if not bad_ else
+                          "symbols of conditions are excluded: a variable whose old value is only *tested* before its assignment starts with the empty value set instead of <name>0"))
+    for name, cl in (("interval-refused", clause_a), ("not-failed", clause_b), ("sequential-init", clause_cd)):
+        try:
+            cl()
+        except AnalysisError as e:
+            obs.append(inconclusive("E-typer", f"{rp}::clause::{name}", rp, 0, "FiniteFixedPointTyper", f"mechanism not recognised: {e}"))
     return obs
 
 
@@ -244,6 +273,12 @@ def mut_typer(repo: Repo) -> List[Mutant]:
     ov = mutate_module(repo, rp, drop_tuple)
     if ov:
         out.append(Mutant("typer-accepts-intervals", ov, "fire", "interval-refused", control=True))
+    ov = text_mutant(repo, rp, "running_symbols |= assign.get_free_symbols(with_default=False)", "running_symbols = assign.get_free_symbols(with_default=False)")
+    if ov:
+        out.append(Mutant("reads-of-earlier-statements-forgotten", ov, "fire", "reads-accumulate"))
+    ov = text_mutant(repo, rp, "running_symbols |= assign.get_free_symbols(with_default=False)", "running_symbols.update(assign.get_free_symbols(with_default=False))")
+    if ov:
+        out.append(Mutant("benign-update-call", ov, "silent"))
 
     def drop_failed(tree):
         fn = find_def(tree, "FiniteFixedPointTyper._extract_types")
@@ -1139,8 +1174,18 @@ def rule_typer_fixpoint(repo: Repo) -> List[Ob]:
     for m in cls.all_methods:
         for iff in [x for x in walk_no_nested(m.node) if isinstance(x, ast.If)]:
             t = iff.test
-            if isinstance(t, ast.Attribute) and t.attr == "has_changed" and any(isinstance(a, ast.For) for a in ancestors(iff)):
-                eff = effects(iff.body)
+            region = None
+            if isinstance(t, ast.Attribute) and t.attr == "has_changed":
+                region = iff.body
+            elif isinstance(t, ast.UnaryOp) and isinstance(t.op, ast.Not) and isinstance(t.operand, ast.Attribute) and t.operand.attr == "has_changed":
+                # if not s.has_changed: continue ; <what happens to a variable that is still changing>
+                par_ = parent(iff)
+                if iff.orelse:
+                    region = iff.orelse
+                elif isinstance(par_, ast.For) and iff.body and isinstance(iff.body[-1], ast.Continue) and iff in par_.body:
+                    region = par_.body[par_.body.index(iff) + 1:]
+            if region is not None and any(isinstance(a, ast.For) for a in ancestors(iff)):
+                eff = effects(region)
                 if not ({"is_locked", "has_failed"} & eff):
                     continue
                 keyl = f"{rp}::{m.qualname}::still-changing"
@@ -1149,6 +1194,42 @@ def rule_typer_fixpoint(repo: Repo) -> List[Ob]:
                 else:
                     obs.append(Ob("E-typer-fixpoint", keyl, rp, iff.lineno, m.qualname, False,
                                   "a variable whose value set is still growing is only locked, not failed: its incomplete set is handed out as a finite type once the iteration budget is used up"))
+    # an announcement made during a pass must survive until the fixed-point test: a sweep over ALL state entries that resets
+    # has_changed and runs after the updates of the same pass erases announcements (a variable failed in this pass is locked at once)
+    def can_announce(stmts, depth=0) -> bool:
+        for st in stmts:
+            for x in ast.walk(st):
+                if isinstance(x, ast.Assign) and any(isinstance(t, ast.Attribute) and t.attr == "has_changed" for t in x.targets) and not (isinstance(x.value, ast.Constant) and x.value.value is False):
+                    return True
+                if isinstance(x, ast.Call) and isinstance(x.func, ast.Attribute) and isinstance(x.func.value, ast.Name) and x.func.value.id == "self" and depth < 3:
+                    h = cls.find_method(x.func.attr)
+                    if h is not None and can_announce(h.node.body, depth + 1):
+                        return True
+        return False
+    from ..shape import expanded as _expanded, callers_of as _callers_of
+    for m in cls.all_methods:
+        if m.name.startswith("_") and len(_callers_of(repo, m)) == 1 and _callers_of(repo, m)[0].name.startswith("_"):
+            pass      # still examined on its own: a sweep in a helper is judged against what precedes its call through the expanded caller
+        mnode = _expanded(repo, m)
+        for blk_owner in [mnode] + [x for x in walk_no_nested(mnode) if isinstance(x, (ast.If, ast.For, ast.While, ast.With))]:
+            for fld in ("body", "orelse"):
+                blk = getattr(blk_owner, fld, None)
+                if not isinstance(blk, list):
+                    continue
+                for i, st in enumerate(blk):
+                    if not (isinstance(st, ast.For) and re.search(r"state\.(values|items|keys)\(\)|in self\.state\b", src(st.iter) if True else "")):
+                        continue
+                    resets = [x for x in ast.walk(st) if isinstance(x, ast.Assign) and any(isinstance(t, ast.Attribute) and t.attr == "has_changed" for t in x.targets)
+                              and isinstance(x.value, ast.Constant) and x.value.value is False]
+                    if not resets:
+                        continue
+                    keys_ = f"{rp}::{m.qualname}::reset-sweep"
+                    if can_announce(blk[:i]):
+                        obs.append(Ob("E-typer-fixpoint", keys_, rp, resets[0].lineno, m.qualname, False,
+                                      f"`{src(resets[0])[:50]}` in a sweep over all variables runs after the updates of the same pass: the has_changed = True of a variable that "
+                                      "failed (and was locked) in this pass is erased before the fixed-point test, readers evaluated earlier in the pass keep their value sets"))
+                    else:
+                        obs.append(Ob("E-typer-fixpoint", keys_, rp, resets[0].lineno, m.qualname, True, "the sweep that clears has_changed runs before the updates of the pass"))
     if n < 2:
         raise AnalysisError("typer: state mutations not found")
     # types are extracted only after the fixed point was reached
